@@ -65,6 +65,16 @@ def handle (kind : String) (args : List String) (impl : String) : String :=
       let spS := if sp == "" then "" else s!"SPEC {sp} impl={impl}"
       if d == "" && spS == "" then "ok" else d ++ (if d != "" && spS != "" then " ; " else "") ++ spS
     | _, _, _ => "bad-op"
+  | "c14.topo", [st, _a1, a2, _n] =>
+    -- after the second refresh reads go to the replicas that follow the owner now (REPLICA; the master when it has none),
+    -- or to the master or those replicas (BOTH); never to a node that follows another master
+    let hasRep := a2.toList.contains '0'
+    let allowed : List String :=
+      if st == "R" then (if hasRep then ["R"] else ["M"])
+      else (if hasRep then ["M", "R", "MR"] else ["M"])
+    if impl.toList.contains 'X' then s!"SPEC read-sent-to-a-node-that-is-not-a-replica-of-the-owner impl={impl}"
+    else if allowed.contains impl then "ok"
+    else s!"DIFF model-allows={allowed} impl={impl}"
   | _, _ => "bad-op"
 
 end SamVerif.Drive.C14
